@@ -1,6 +1,10 @@
 package diff
 
-import "github.com/go-openapi/spec"
+import (
+	"fmt"
+
+	"github.com/go-openapi/spec"
+)
 
 // vs_hasCode: some entry of ds at an index in [from, from+8) carries change code c.
 // The window makes the predicate quantifier-free; it is exact whenever at most 8
@@ -138,4 +142,93 @@ func vs_nonNilItem(item interface{}) bool {
 		return s != nil
 	}
 	return true
+}
+
+// compareSimpleSchema emits one entry per differing attribute, in a fixed order:
+// nullable, collectionFormat, default, example. vs_simpleRows(a, b, n) is the number of
+// entries emitted for the first n attributes.
+func vs_simpleRows(a, b *spec.SimpleSchema, n int) int {
+	k := 0
+	if n >= 1 && a.Nullable != b.Nullable {
+		k++
+	}
+	if n >= 2 && a.CollectionFormat != b.CollectionFormat {
+		k++
+	}
+	if n >= 3 && a.Default != b.Default {
+		k++
+	}
+	if n >= 4 && a.Example != b.Example {
+		k++
+	}
+	return k
+}
+
+// vs_nullableCode: nullable -> not nullable reads as optional -> required, and vice versa.
+func vs_nullableCode(wasNullable bool) SpecChangeCode {
+	if wasNullable {
+		return ChangedOptionalToRequired
+	}
+	return ChangedRequiredToOptional
+}
+
+// vs_presenceCode: added / deleted / changed, by presence of the old and the new value.
+func vs_presenceCode(a, b interface{}, added, deleted, changed SpecChangeCode) SpecChangeCode {
+	if a == nil && b != nil {
+		return added
+	}
+	if a != nil && b == nil {
+		return deleted
+	}
+	return changed
+}
+
+// vs_reclassified: out is in with its compatibility recomputed from (code, direction) - what addDiff does.
+func vs_reclassified(out, in SpecDifference) bool {
+	return out.Code == in.Code && out.DifferenceLocation == in.DifferenceLocation && out.DiffInfo == in.DiffInfo &&
+		out.Compatibility == getCompatibilityForChange(in.Code, vs_context(in.DifferenceLocation))
+}
+
+// vs_in: s occurs in xs (transparent: unfolded at every use; for loop invariants).
+func vs_in(xs []string, s string) bool {
+	return vs_any(func(i int) bool { return 0 <= i && i < len(xs) && xs[i] == s })
+}
+
+// vs_inPrefix: s occurs among the first n elements of xs.
+func vs_inPrefix(xs []string, n int, s string) bool {
+	return vs_any(func(i int) bool { return 0 <= i && i < n && i < len(xs) && xs[i] == s })
+}
+
+// vs_flags: the bit set DiffsTo keeps per key (1 = in the old list, 2 = in the new list).
+func vs_flags(inFrom, inTo bool) int {
+	k := 0
+	if inFrom {
+		k++
+	}
+	if inTo {
+		k += 2
+	}
+	return k
+}
+
+// vs_enumStr: how CompareEnums identifies an enum value (its %v rendering).
+func vs_enumStr(e interface{}) string { return fmt.Sprintf("%v", e) }
+
+// vs_inEnum: some value of xs renders as s.
+func vs_inEnum(xs []interface{}, s string) bool {
+	return vs_any(func(j int) bool { return 0 <= j && j < len(xs) && vs_enumStr(xs[j]) == s })
+}
+
+// vs_mem: s occurs in xs. Same meaning as vs_in, but opaque: an uninterpreted predicate with
+// its definition as a triggered axiom, so that quantified contract clauses over it can be
+// instantiated by callers.
+// vs:opaque
+func vs_mem(xs []string, s string) bool {
+	return vs_any(func(i int) bool { return 0 <= i && i < len(xs) && xs[i] == s })
+}
+
+// vs_memEnum: some value of xs renders as s (opaque, see vs_mem).
+// vs:opaque
+func vs_memEnum(xs []interface{}, s string) bool {
+	return vs_any(func(j int) bool { return 0 <= j && j < len(xs) && vs_enumStr(xs[j]) == s })
 }
